@@ -125,6 +125,7 @@ def matches(ref, name):
 
 SCRIPTS = [
     (12, [("none", "create"), ("break_test", "trim"), ("none", "none")]),
+    (12, [("none", "create"), ("same_bytes_other_suffix", "create"), ("none", "none"), ("none", "disable")]),
     (12, [("none", "all"), ("break_test", "all"), ("none", "disable")]),
     (8, [("none", "create"), ("change_hash_length:16", "trim"), ("none", "none"), ("none", "disable")]),
     (12, [("none", "all"), ("shorten_reference", "trim"), ("none", "none")]),
@@ -134,7 +135,7 @@ SCRIPTS = [
 
 def run_history(rng, args, out, C, hidx, script=None):
     hash_length = rng.choice([1, 4, 12, 12, 64, 80])
-    sd_kind = rng.choice(["default", "relative", "absolute"])
+    sd_kind = rng.choice(["default", "relative", "absolute", "relative-glob-characters"])
     if script:
         hash_length = script[0]
     settings = {"hash_length": hash_length, "storage_dir": sd_kind}
@@ -146,13 +147,17 @@ def run_history(rng, args, out, C, hidx, script=None):
         if sd_kind == "relative":
             pp.append('storage-dir="snaps/store"')
             storage_rel = "snaps/store/external"
+        elif sd_kind == "relative-glob-characters":
+            # a directory name is not a pattern
+            pp.append('storage-dir="snaps [v1]/st*re"')
+            storage_rel = "snaps [v1]/st*re/external"
         elif sd_kind == "absolute":
             pp.append(f'storage-dir="{proj.dir}/abs_store"')
             storage_rel = "abs_store/external"
         proj.write({"pyproject.toml": "\n".join(pp) + "\n"})
         steps = []
         for step in range(len(script[1]) if script else rng.randint(4, 8)):
-            edit = rng.choice(["none", "change_data", "change_data", "add_test", "remove_test", "add_file", "equal_payloads", "change_hash_length", "shorten_reference", "break_test"]) if step else "none"
+            edit = rng.choice(["none", "change_data", "change_data", "add_test", "remove_test", "add_file", "equal_payloads", "change_hash_length", "shorten_reference", "break_test", "same_bytes_other_suffix"]) if step else "none"
             forced_len = None
             if script:
                 edit, forced_flag = script[1][step]
@@ -174,6 +179,13 @@ def run_history(rng, args, out, C, hidx, script=None):
             elif edit == "equal_payloads" and len(fnames) > 1:
                 src_t = rng.choice(list(w.files["test_a.py"].values()))
                 w.add_test("test_b.py", payload=src_t["payload"])
+            elif edit == "same_bytes_other_suffix" and w.files[f0]:
+                # the same bytes outsourced under another suffix are another stored file
+                src_t = rng.choice(list(w.files[f0].values()))
+                pexpr, sfx = src_t["payload"]
+                other = rng.choice([x for x in (".csv", ".log", None) if x != sfx])
+                w.add_test(f0, payload=(pexpr, other))
+                C["same_bytes_other_suffix_steps"] = C.get("same_bytes_other_suffix_steps", 0) + 1
             elif edit == "break_test" and w.files[f0]:
                 # a bug in the code under test: the test fails before its snapshot is reached (its file still takes part)
                 cands = [t for t in w.files[f0].values() if t["arg"] and t["arg"].startswith("external(")] or list(w.files[f0].values())
